@@ -39,6 +39,44 @@ func runC06(p *load.Program, r *core.Report) {
 	c06Release(a, r)
 	c06SwapDelete(a, r)
 	c06NameFlag(a, r)
+	c06MetaRelease(a, r)
+}
+
+// c06MetaRelease: G3 for meta processes — wherever a meta process is torn down (its Terminate
+// callback is invoked) the alias that identifies it has been removed from the alias table on every
+// path: a terminated meta process does not stay addressable.
+func c06MetaRelease(a *Anchors, r *core.Report) {
+	rule := "C06.G3m meta-release"
+	r.Floor(rule, 4)
+	mc := metaClassify(a)
+	for _, f := range funcsOfPkgs(a.P, "node") {
+		if len(f.Blocks) == 0 {
+			continue
+		}
+		seq := 0
+		eachInstr(f, func(in ssa.Instruction) {
+			cb := mc(in)
+			if cb == nil || cb.kind != "term" {
+				return
+			}
+			seq++
+			key := fmt.Sprintf("C06.G3m|%s|Terminate#%d", fname(f), seq)
+			inst := "the meta process's alias is removed from the alias table before its Terminate callback runs"
+			isDel := func(i ssa.Instruction) bool {
+				cc := callCommon(i)
+				if cc == nil {
+					return false
+				}
+				m, ok := syncMapCall(cc)
+				return ok && (m == "Delete" || m == "LoadAndDelete") && tableOf(a, cc) == "aliases"
+			}
+			if hit := reaches([]Point{{f.Blocks[0], 0}}, isDel, func(i ssa.Instruction) bool { return i == in }); hit != nil {
+				r.Bad(rule, key, fname(f), a.P.Pos(in.Pos()), inst, "a path reaches the callback without aliases.Delete: the alias of a dead meta process stays registered (sends to it find the parent process, a new SpawnMeta can never reuse it)")
+			} else {
+				r.OK(rule, key, fname(f), a.P.Pos(in.Pos()), inst, "every path from the function entry passes aliases.Delete")
+			}
+		})
+	}
 }
 
 // identity tables: sync.Map fields of the node struct, classified by the static key type at their write sites.
